@@ -70,8 +70,34 @@ def backward_slice(fn, roots, through_calls=True):
         seen_locals.add(l)
         if first_visit and 1 <= l <= fn.argc:
             leaves.append(("param", l))
+        # a read of one field of a tuple / struct that was built by an aggregate follows only the operand stored in that field
+        agg_defs = [d for d in fn.defs.get(l, []) if d[0] == "stmt" and d[3]["rv"]["k"] == "agg" and d[3]["rv"].get("ak") in ("tuple", "adt") and len(d[3]["rv"].get("f", [])) >= 2]
+        for d in agg_defs:
+            rv = d[3]["rv"]
+            sel = None
+            if fl:
+                names = rv.get("fields") or [str(i_) for i_ in range(len(rv["f"]))]
+                if fl[0] in names:
+                    sel = names.index(fl[0])
+                elif str(fl[0]).isdigit() and int(fl[0]) < len(rv["f"]):
+                    sel = int(fl[0])
+            ops = [rv["f"][sel]] if sel is not None else rv["f"]
+            for o in ops:
+                ak = (l, "agg", id(d[3]), id(o))
+                if ak in seen:
+                    continue
+                seen.add(ak)
+                if o["k"] == "const":
+                    leaves.append(("const", o))
+                p_ = op_place(o)
+                if p_ is not None:
+                    push_place(p_)
+                    if p_[1]:
+                        leaves.append(("place", p_, d[1]))
         if first_visit:
             for d in fn.defs.get(l, []):
+                if d in agg_defs:
+                    continue
                 if d[0] == "call":
                     t = d[2]
                     leaves.append(("call", d[1], t))
